@@ -367,7 +367,7 @@ pub fn battery(rng: &mut Rng, kind: Kind, bits: &Bits, dbg: bool) -> Vec<Step> {
     let cap = kind.fixed_cap().unwrap_or(usize::MAX);
     let room = cap - n;
     let mut b: Vec<Step> = Vec::new();
-    for op in ["len", "is_empty", "first", "last", "is_zero", "leading_zeros", "leading_ones", "trailing_zeros", "trailing_ones", "significant_bits", "iter_collect", "new_inner", "clone", "hash", "pop"] {
+    for op in ["len", "is_empty", "first", "last", "is_zero", "leading_zeros", "leading_ones", "trailing_zeros", "trailing_ones", "significant_bits", "iter_collect", "new_inner", "clone", "hash", "hash_slice", "pop"] {
         b.push(Step::new(op));
     }
     b.push(Step::new("iter_collect").a(Args { byval: true, ..Default::default() }));
@@ -598,20 +598,23 @@ pub fn drive_c10(t: &Tier, sink: &mut Sink, stats: &mut Stats) {
                 for prep in preps.iter().copied() {
                     let (x, ok) = make(kind, &b, prep);
                     let pre = observe(&x);
-                    let mut xc = x.clone();
-                    let stream = match exec(&mut xc, &Y::None, "hash", "", &Args::default()) {
-                        Out::Bytes(s) => s,
-                        _ => vec![0xEE],
-                    };
-                    let next = ids.len() as u64 + 1;
-                    let id = *ids.entry(stream).or_insert(next);
-                    let post = observe(&xc);
-                    let st = Step::new("hash");
-                    let mut ev = base_event(&st, 1, "hash", t.dbg, &x, &pre, ydesc_none(), &post, vec![], &Out::Unit);
-                    ev["h"] = json!(id);
-                    ev["x"]["p"] = json!(if ok { prep.name() } else { "fresh".into() });
-                    evs.push(ev);
-                    stats.execs += 1;
+                    // as a key itself, and as an element of a hashed slice (Hash::hash_slice)
+                    for hop in ["hash", "hash_slice"] {
+                        let mut xc = x.clone();
+                        let stream = match exec(&mut xc, &Y::None, hop, "", &Args::default()) {
+                            Out::Bytes(s) => s,
+                            _ => vec![0xEE],
+                        };
+                        let next = ids.len() as u64 + 1;
+                        let id = *ids.entry(stream).or_insert(next);
+                        let post = observe(&xc);
+                        let st = Step::new(hop);
+                        let mut ev = base_event(&st, 1, "hash", t.dbg, &x, &pre, ydesc_none(), &post, vec![], &Out::Unit);
+                        ev["h"] = json!(id);
+                        ev["x"]["p"] = json!(if ok { prep.name() } else { "fresh".into() });
+                        evs.push(ev);
+                        stats.execs += 1;
+                    }
                     // HashSet membership: a set holding this vector finds an equal one of another length
                     if v.len() + 5 <= cap && rng.chance(1, 3) {
                         let mut other = v.clone();
